@@ -8,6 +8,21 @@ package netpoll
 // poller-driven completion; the receiver (OnRequest handler or blocking reader) consumes with a random
 // Reader op mix and pace and checks every byte against its stream position; the sender closes after its
 // last Flush returned nil, and the receiver must have got every byte before it sees end-of-stream.
+//
+// Scenario class jitter=true ("for all interleavings of the user goroutines with the poller goroutine"): the SENDER's
+// operator.poll is wrapped by vsJitterPoll, which forwards every call unchanged to the real poll and only sleeps 0 or 0.3 ms in
+// front of a Control call (what a preempted thread or a slow epoll_ctl does): the windows of the flusher/poller hand-off
+// (PollR2RW by the flusher, PollRW2R + wake-up by the poller) become milliseconds wide.  The sender pushes back-to-back
+// payloads larger than the 4 KB socket buffer, so every flush completes through the poller.  No call is dropped, failed or
+// reordered.  A progress watchdog reports the stall (nothing read for vsJitterStall although the sender has not finished).
+//
+// Scenario class poll=true ("any pace of Reader calls"): the receiver is a POLLING reader - it never blocks in
+// waitRead but loops `if Len()==0 { Release(); continue }; <random Reader op on at most Len() bytes>` - and the
+// sender is the raw peer descriptor writing the stream in pieces of 1..48 bytes, so that Release() (operator
+// do()/done() around the tail reset) races the poller's inputs/inputAck on every delivery. A stall watchdog judges the
+// clause "nothing lost": bytes the peer's write(2) has accepted and that are neither consumed nor buffered must become
+// readable while the reader keeps polling; if the count read does not move for vsStallFor although the reader loop
+// keeps running and bytes are outstanding, the scenario FAILs (the state of the operator token is printed with it).
 
 import (
 	"context"
@@ -33,13 +48,35 @@ type vsScenario struct {
 	total     int
 	smallBuf  bool
 	slowRead  bool
+	poll      bool // polling reader + raw small-piece sender (vsRunPoll)
+	jitter    bool // delays in front of the sender's Control calls (vsJitterPoll), large back-to-back payloads
 }
+
+// vsJitterPoll forwards to the real poll; Control is preceded by a pause of 0 or 0.3 ms (seeded).
+type vsJitterPoll struct {
+	Poll
+	mu sync.Mutex
+	r  *rand.Rand
+}
+
+func (p *vsJitterPoll) Control(operator *FDOperator, event PollEvent) error {
+	p.mu.Lock()
+	d := p.r.Intn(2)
+	p.mu.Unlock()
+	if d == 1 {
+		time.Sleep(300 * time.Microsecond)
+	}
+	return p.Poll.Control(operator, event)
+}
+
+const vsJitterStall = 10 * time.Second
 
 type vsResult struct {
 	ok     bool
 	reason string
 	got    int
 	ops    map[string]int
+	ms     int // wall time of the scenario
 }
 
 // vsSend writes s.total bytes of the stream through w with a random API mix.
@@ -288,7 +325,156 @@ func vsSetBuf(fd int) {
 	syscall.SetsockoptInt(fd, syscall.SOL_SOCKET, syscall.SO_RCVBUF, 4096)
 }
 
+// vsStallFor: how long the polling reader may see no new byte while the peer's accepted bytes are outstanding.
+const vsStallFor = 4 * time.Second
+
+// vsRunPoll: polling reader against a raw sender (see the header comment).
+func vsRunPoll(s vsScenario) (res vsResult) {
+	res.ops = map[string]int{}
+	rs := rand.New(rand.NewSource(int64(s.seed)*7919 + 1))
+	rr := rand.New(rand.NewSource(int64(s.seed)*104729 + 2))
+	fds, err := syscall.Socketpair(syscall.AF_UNIX, syscall.SOCK_STREAM, 0)
+	if err != nil {
+		return vsResult{reason: "socketpair: " + err.Error(), ops: res.ops}
+	}
+	if s.smallBuf {
+		vsSetBuf(fds[0])
+		vsSetBuf(fds[1])
+	}
+	rc := &connection{}
+	if err := rc.init(&netFD{fd: fds[1], network: "unix"}, &options{}); err != nil {
+		syscall.Close(fds[0])
+		return vsResult{reason: "init: " + err.Error(), ops: res.ops}
+	}
+	var written, got, polls int64
+	var stop int32
+	sendDone := make(chan error, 1)
+	go func() {
+		// raw peer: blocking write(2) of 1..48 bytes at a time, then close
+		defer syscall.Close(fds[0])
+		buf := make([]byte, 48)
+		pos := 0
+		for pos < s.total && atomic.LoadInt32(&stop) == 0 {
+			n := 1 + rs.Intn(48)
+			if n > s.total-pos {
+				n = s.total - pos
+			}
+			for i := 0; i < n; i++ {
+				buf[i] = vsByte(s.seed, pos+i)
+			}
+			m, err := syscall.Write(fds[0], buf[:n])
+			if err != nil {
+				if err == syscall.EINTR || err == syscall.EAGAIN {
+					continue
+				}
+				sendDone <- fmt.Errorf("raw write at %d: %v", pos, err)
+				return
+			}
+			pos += m
+			atomic.StoreInt64(&written, int64(pos))
+		}
+		sendDone <- nil
+	}()
+	rops := map[string]int{}
+	defer func() {
+		for k, v := range rops {
+			res.ops["r."+k] += v
+		}
+	}()
+	bad := ""
+	readDone := make(chan struct{})
+	go func() {
+		defer close(readDone)
+		pos := 0
+		var held []vsHeld
+		rd := rc.Reader()
+		for atomic.LoadInt32(&stop) == 0 {
+			atomic.AddInt64(&polls, 1)
+			l := rd.Len()
+			if l == 0 {
+				if !rc.IsActive() && rd.Len() == 0 {
+					return // end-of-stream
+				}
+				rops["Release"]++
+				held = held[:0]
+				rd.Release()
+				continue
+			}
+			_, b := vsConsume(s, rc, rr, &pos, l, rops, &held)
+			atomic.StoreInt64(&got, int64(pos))
+			if b != "" {
+				bad = b
+				return
+			}
+		}
+	}()
+	// watchdog
+	stalled := ""
+	last, lastPolls, lastMove := int64(-1), int64(0), time.Now()
+	tick := time.NewTicker(50 * time.Millisecond)
+	defer tick.Stop()
+	deadline := time.After(60 * time.Second)
+WATCH:
+	for {
+		select {
+		case <-readDone:
+			break WATCH
+		case <-deadline:
+			stalled = fmt.Sprintf("hang: polling reader at %d of %d after 60s", atomic.LoadInt64(&got), s.total)
+			break WATCH
+		case <-tick.C:
+		}
+		g, w, p := atomic.LoadInt64(&got), atomic.LoadInt64(&written), atomic.LoadInt64(&polls)
+		if g != last || w <= g || p == lastPolls {
+			// progress, or nothing outstanding, or the reader itself did not run: no judgement
+			last, lastMove = g, time.Now()
+			lastPolls = p
+			continue
+		}
+		lastPolls = p
+		if time.Since(lastMove) >= vsStallFor {
+			stalled = fmt.Sprintf("stall: the peer's write(2) accepted %d bytes, the polling reader (Len()==0 -> Release(), else read) consumed %d, %d are buffered, and nothing became readable for %v although the reader kept polling (%d polls); operator.state=%d (2 = do() token taken)",
+				w, g, rc.inputBuffer.Len(), vsStallFor, p, atomic.LoadInt32(&rc.operator.state))
+			break WATCH
+		}
+	}
+	atomic.StoreInt32(&stop, 1)
+	if stalled != "" {
+		// clean-up only: unblock the raw writer, wait for the reader to leave Release(), and give a token that nobody
+		// holds back, otherwise Close() spins in operator.unused() for ever and disturbs the scenarios that follow
+		syscall.Shutdown(fds[0], syscall.SHUT_RDWR)
+		<-readDone
+		if atomic.LoadInt32(&rc.operator.state) == 2 {
+			rc.operator.done()
+		}
+		rc.Close()
+		return vsResult{reason: stalled, got: int(atomic.LoadInt64(&got)), ops: res.ops}
+	}
+	var serr error
+	select {
+	case serr = <-sendDone:
+	case <-time.After(10 * time.Second):
+		syscall.Shutdown(fds[0], syscall.SHUT_RDWR)
+		rc.Close()
+		return vsResult{reason: "hang: raw sender did not finish", got: int(atomic.LoadInt64(&got)), ops: res.ops}
+	}
+	rc.Close()
+	g := int(atomic.LoadInt64(&got))
+	switch {
+	case bad != "":
+		return vsResult{reason: bad, got: g, ops: res.ops}
+	case serr != nil:
+		return vsResult{reason: "sender: " + serr.Error(), got: g, ops: res.ops}
+	case g != s.total:
+		return vsResult{reason: fmt.Sprintf("end-of-stream after %d of %d bytes (the peer wrote everything and closed)", g, s.total), got: g, ops: res.ops}
+	}
+	return vsResult{ok: true, got: g, ops: res.ops}
+}
+
 func vsRun(s vsScenario) (res vsResult) {
+	if s.poll {
+		return vsRunPoll(s)
+	}
 	res.ops = map[string]int{}
 	var opsMu sync.Mutex
 	rs := rand.New(rand.NewSource(int64(s.seed)*7919 + 1))
@@ -372,6 +558,9 @@ func vsRun(s vsScenario) (res vsResult) {
 		if err := sc.init(&netFD{fd: fds[0], network: "unix"}, &options{}); err != nil {
 			return vsResult{reason: "init: " + err.Error(), ops: res.ops}
 		}
+		if s.jitter {
+			sc.operator.poll = &vsJitterPoll{Poll: sc.operator.poll, r: rand.New(rand.NewSource(int64(s.seed)*31 + 7))}
+		}
 		sender, receiver = sc, rc
 		cleanup = append(cleanup, func() { sc.Close(); rc.Close() })
 	default:
@@ -448,6 +637,23 @@ func vsRun(s vsScenario) (res vsResult) {
 		sendDone <- err
 	}()
 	deadline := time.After(60 * time.Second)
+	if s.jitter {
+		// progress watchdog: with delays only in front of epoll_ctl calls the stream must keep moving
+		stall := make(chan time.Time, 1)
+		go func() {
+			last, lastMove := int64(-1), time.Now()
+			for {
+				time.Sleep(100 * time.Millisecond)
+				if g := atomic.LoadInt64(&got); g != last {
+					last, lastMove = g, time.Now()
+				} else if time.Since(lastMove) >= vsJitterStall {
+					stall <- time.Now()
+					return
+				}
+			}
+		}()
+		deadline = stall
+	}
 	if !s.handler {
 		// blocking reader: read until EOF
 		readDone := make(chan struct{})
@@ -475,13 +681,13 @@ func vsRun(s vsScenario) (res vsResult) {
 		select {
 		case <-readDone:
 		case <-deadline:
-			return vsResult{reason: fmt.Sprintf("hang: reader stuck at %d of %d", atomic.LoadInt64(&got), s.total), got: int(atomic.LoadInt64(&got)), ops: res.ops}
+			return vsResult{reason: fmt.Sprintf("hang: reader stuck at %d of %d%s", atomic.LoadInt64(&got), s.total, vsHangNote(s, sender)), got: int(atomic.LoadInt64(&got)), ops: res.ops}
 		}
 	} else {
 		select {
 		case <-eofCh:
 		case <-deadline:
-			return vsResult{reason: fmt.Sprintf("hang: receiver saw no end-of-stream, got %d of %d", atomic.LoadInt64(&got), s.total), got: int(atomic.LoadInt64(&got)), ops: res.ops}
+			return vsResult{reason: fmt.Sprintf("hang: receiver saw no end-of-stream, got %d of %d%s", atomic.LoadInt64(&got), s.total, vsHangNote(s, sender)), got: int(atomic.LoadInt64(&got)), ops: res.ops}
 		}
 	}
 	var serr error
@@ -505,14 +711,43 @@ func vsRun(s vsScenario) (res vsResult) {
 	return vsResult{ok: true, got: g, ops: res.ops}
 }
 
+// vsHangNote: what the sender side looks like when the stream stopped (diagnostics of a jitter scenario)
+func vsHangNote(s vsScenario, sender Connection) string {
+	sc, ok := sender.(*connection)
+	if !ok || !s.jitter {
+		return ""
+	}
+	return fmt.Sprintf(" (nothing read for %v while the sender had not finished; sender: %d bytes still in its output buffer, flushing=%d, no write error reported; Control calls were only delayed, never dropped)",
+		vsJitterStall, sc.outputBuffer.Len(), atomic.LoadInt32(&sc.keychain[flushing]))
+}
+
 func vsScenarioOf(seed, id int, big bool) vsScenario {
 	r := rand.New(rand.NewSource(int64(seed)*1000003 + int64(id)))
 	totals := []int{1, 2, 100, 4096, 8192, 8193, 65536, 200000, 1 << 20}
 	if big {
 		totals = append(totals, 4<<20, 32<<20)
 	}
-	return vsScenario{id: id, seed: seed*100000 + id, transport: []string{"pair", "pair", "tcp", "unix"}[r.Intn(4)],
+	sc := vsScenario{id: id, seed: seed*100000 + id, transport: []string{"pair", "pair", "tcp", "unix"}[r.Intn(4)],
 		handler: r.Intn(3) != 0, total: totals[r.Intn(len(totals))] + r.Intn(3), smallBuf: r.Intn(3) != 0, slowRead: r.Intn(2) == 0}
+	if id%6 == 2 {
+		// every sixth scenario: delays in front of the sender's epoll_ctl calls, every flush larger than the socket buffer
+		sc.jitter, sc.transport, sc.smallBuf = true, "pair", true
+		if sc.total < 200000 {
+			sc.total = 200000 + r.Intn(3)
+		}
+	}
+	if id%6 == 5 {
+		// every sixth scenario: polling reader + raw small-piece sender
+		sc.poll, sc.transport, sc.handler, sc.slowRead = true, "pair", false, false
+		sc.total = []int{300000, 600000, 1 << 20}[r.Intn(3)] + r.Intn(3)
+		if sc.smallBuf {
+			sc.total /= 3 // 4 KB socket buffers: the raw writer blocks every few pieces, three times the switches per byte
+		}
+		if big {
+			sc.total *= 4
+		}
+	}
+	return sc
 }
 
 // VerifStreamMain: streamh -seed S -n N [-big] [-only id]  — one line per scenario
@@ -544,7 +779,10 @@ func VerifStreamMain(args []string) int {
 			defer wg.Done()
 			defer func() { <-sem }()
 			s := vsScenarioOf(*seed, i, *big)
-			results[i] = out{s, vsRun(s)}
+			t0 := time.Now()
+			r := vsRun(s)
+			r.ms = int(time.Since(t0) / time.Millisecond)
+			results[i] = out{s, r}
 		}(i)
 	}
 	wg.Wait()
@@ -558,8 +796,8 @@ func VerifStreamMain(args []string) int {
 			st = "FAIL " + o.r.reason
 			fail++
 		}
-		fmt.Printf("scn seed=%d id=%d transport=%s handler=%v total=%d smallbuf=%v slow=%v got=%d ops=%v :: %s\n",
-			*seed, i, o.s.transport, o.s.handler, o.s.total, o.s.smallBuf, o.s.slowRead, o.r.got, o.r.ops, st)
+		fmt.Printf("scn seed=%d id=%d transport=%s handler=%v poll=%v jitter=%v total=%d smallbuf=%v slow=%v got=%d ms=%d ops=%v :: %s\n",
+			*seed, i, o.s.transport, o.s.handler, o.s.poll, o.s.jitter, o.s.total, o.s.smallBuf, o.s.slowRead, o.r.got, o.r.ms, o.r.ops, st)
 	}
 	if fail > 0 {
 		return 1
